@@ -1,14 +1,14 @@
 #!/bin/bash
 set -e
 . $MC/par.sh
-# Two builds of crc.c: clang -O1 (fast, the big enumerations) and gcc -O0 with the alignment sanitizer
+# Builds of crc.c: clang -O1 (fast, the big enumerations) and gcc -O0 -funsigned-char with the alignment sanitizer
 # (every load written in the source is executed: an over-read that an optimiser would delete stays visible,
 # and a word load through a misaligned pointer is a report although x86 tolerates it).
 CF="-g -fsanitize=address -fno-omit-frame-pointer -I$REPO -I$MC"
 par clang -c -O1 $CF $REPO/igris/util/crc.c -o $BUILD/crc.o
 par clang++ -std=c++17 -c -O1 $CF $VERIF/harness/c17/c17_crc.cpp -o $BUILD/h.o
-par gcc -c -O0 $CF -fsanitize=alignment -fno-sanitize-recover=alignment $REPO/igris/util/crc.c -o $BUILD/crc_o0.o
-par g++ -std=c++17 -c -O0 $CF -fsanitize=alignment -fno-sanitize-recover=alignment -DC17_STRICT_BUILD $VERIF/harness/c17/c17_crc.cpp -o $BUILD/h_o0.o
+par gcc -c -O0 -funsigned-char $CF -fsanitize=alignment -fno-sanitize-recover=alignment $REPO/igris/util/crc.c -o $BUILD/crc_o0.o
+par g++ -std=c++17 -c -O0 -funsigned-char $CF -fsanitize=alignment -fno-sanitize-recover=alignment -DC17_STRICT_BUILD $VERIF/harness/c17/c17_crc.cpp -o $BUILD/h_o0.o
 # third build of crc.c: optimised for size (-Os defines __OPTIMIZE_SIZE__; embedded builds are usually -Os, and
 # code selected by that macro or by the size optimiser is otherwise never executed here)
 par gcc -c -Os $CF $REPO/igris/util/crc.c -o $BUILD/crc_os.o
